@@ -87,6 +87,9 @@ PURE_METHODS = {
 NONSTRICT_ERRORS = {"surrogateescape", "replace", "ignore", "backslashreplace", "xmlcharrefreplace", "namereplace", "surrogatepass"}
 
 
+MAXSIZE = 2 ** 63 - 1       # sys.maxsize on the 64-bit CPython this library targets (assumption recorded in the evidence)
+
+
 class MayRaise:
     def __init__(self, model: Model, resolver: Optional[Resolver] = None):
         self.m = model
@@ -102,6 +105,9 @@ class MayRaise:
         self.changed = False
         self._done: Set = set()
         self._alias_cache: Dict = {}
+        self._pf_cache: Dict[str, FrozenSet[Fact]] = {}
+        self._cpt_cache: Dict = {}
+        self._pf_busy: Set[str] = set()
         self._exact_cache: Dict = {}
 
     # ------------------------------------------------------------------ API
@@ -190,8 +196,56 @@ class MayRaise:
                 t = self.r.type_of(call, fi)
                 return t not in (UNK, prim("none")) and t[0] not in ("opt", "dictget", "typevar")
             self.flows[fi.qualname] = FactFlow(fi.node, ival=lambda e, facts, fi=fi: self.ival(e, facts, fi), nn_call=nn,
-                                               ret_nonneg=lambda call, i, fi=fi: self.ret_component_nonneg(call, i, fi))
+                                               ret_nonneg=lambda call, i, fi=fi: self.ret_component_nonneg(call, i, fi),
+                                               init_facts=self.param_facts(fi))
         return self.flows[fi.qualname]
+
+    def param_facts(self, fi: FuncInfo) -> FrozenSet[Fact]:
+        """Integer ranges of the parameters of a private module-level helper, when every reference to the helper in the
+        package is a direct call whose argument has a known non-negative range at the call site."""
+        if fi.cls is not None or isinstance(fi.node, ast.Lambda) or not fi.name.startswith("_") or fi.qualname in self._pf_busy:
+            return frozenset()
+        if fi.qualname in self._pf_cache:
+            return self._pf_cache[fi.qualname]
+        self._pf_busy.add(fi.qualname)
+        try:
+            sites: List[Tuple[FuncInfo, ast.Call]] = []
+            for cq, cfi in self.m.functions.items():
+                if cfi.module != fi.module and fi.name not in self.m.modules[cfi.module].source:
+                    continue
+                calls = {id(n.func) for n in ast.walk(cfi.node) if isinstance(n, ast.Call)}
+                for n in walk_no_nested(cfi.node):
+                    if isinstance(n, ast.Name) and isinstance(n.ctx, ast.Load) and n.id == fi.name and self.m.resolve_name(cfi.module, n.id) == fi.qualname and id(n) not in calls:
+                        return self._pf(fi, frozenset())       # passed around as a value: call sites unknown
+                    if isinstance(n, ast.Call) and isinstance(n.func, ast.Name) and self.m.resolve_name(cfi.module, n.func.id) == fi.qualname:
+                        sites.append((cfi, n))
+            if not sites or any(c.qualname == fi.qualname for c, _ in sites):
+                return self._pf(fi, frozenset())
+            ps = fi.params()
+            stores = {x.id for x in walk_no_nested(fi.node) if isinstance(x, ast.Name) and isinstance(x.ctx, ast.Store)}
+            out: Set[Fact] = set()
+            for i, p_ in enumerate(ps):
+                if p_ in stores:
+                    continue
+                lo, hi = INF, -INF
+                for cfi, call in sites:
+                    a = call.args[i] if i < len(call.args) and not any(isinstance(x, ast.Starred) for x in call.args) else next((k.value for k in call.keywords if k.arg == p_), None)
+                    if a is None:
+                        lo, hi = -INF, INF
+                        break
+                    cf = self.flow_for(cfi).facts_at.get(id(call), frozenset()) if cfi.qualname not in self._pf_busy else frozenset()
+                    al, ah = self.ival(a, cf, cfi)
+                    lo, hi = min(lo, al), max(hi, ah)
+                if lo >= 0:
+                    out.add(("GE0", p_))
+                    out.add(("INT", p_, lo, hi))
+            return self._pf(fi, frozenset(out))
+        finally:
+            self._pf_busy.discard(fi.qualname)
+
+    def _pf(self, fi: FuncInfo, v: FrozenSet[Fact]) -> FrozenSet[Fact]:
+        self._pf_cache[fi.qualname] = v
+        return v
 
     def ret_component_nonneg(self, call: ast.Call, idx: int, fi: FuncInfo) -> bool:
         """Every callee returns a tuple whose idx-th component is a non-negative int
@@ -657,6 +711,8 @@ class MayRaise:
                     r = (-INF, INF)
             elif isinstance(op, ast.Mult) and al >= 0 and bl >= 0:
                 r = (al * bl, ah * bh)
+            elif isinstance(op, ast.FloorDiv) and al >= 0 and bl >= 1 and bl == bh:
+                r = (al // bl, ah if ah == INF else ah // bl)
             else:
                 r = (-INF, INF)
             return (max(r[0], lo), min(r[1], hi))
@@ -667,6 +723,11 @@ class MayRaise:
             b = self.ival(e.orelse, f_f, fi)
             return (min(a[0], b[0]), max(a[1], b[1]))
         if isinstance(e, ast.Call) and isinstance(e.func, ast.Name) and e.func.id == "len":
+            return (0, MAXSIZE)        # len() is a Py_ssize_t
+        if isinstance(e, ast.Call) and isinstance(e.func, ast.Attribute) and e.func.attr == "bit_length" and not e.args:
+            xl, xh = self.ival(e.func.value, facts, fi)
+            if xl >= 0 and xh != INF:
+                return (0, int(xh).bit_length())
             return (0, INF)
         return (lo, hi)
 
@@ -700,7 +761,49 @@ class MayRaise:
                 c = self.exact_class(a, fi, ctx)
                 if c is not None:
                     got[p_] = c
+                    continue
+                # a package function handed over as a value
+                stores = a.id in fi.params() or any(isinstance(x, ast.Name) and x.id == a.id and isinstance(x.ctx, ast.Store) for x in walk_no_nested(fi.node))
+                q = self.m.resolve_name(fi.module, a.id) if not stores else None
+                if q in self.m.functions:
+                    got[p_] = "func:" + q
+                elif a.id in (ctx.get("pcls") or {}) and str((ctx.get("pcls") or {})[a.id]).startswith("func:") and not self._rebound(a.id, fi):
+                    got[p_] = ctx["pcls"][a.id]
         return ("|" + ",".join(f"{k}={v}" for k, v in sorted(got.items()))) if got else ""
+
+    def callable_param_targets(self, fi: FuncInfo, pname: str) -> List[str]:
+        """Package functions passed for parameter `pname` of fi at any call site in the package (context-free fallback)."""
+        ck = (fi.qualname, pname)
+        if ck in self._cpt_cache:
+            return self._cpt_cache[ck]
+        ps = fi.params()
+        if fi.cls and not fi.is_staticmethod:
+            ps = ps[1:]
+        out: List[str] = []
+        if pname in ps:
+            idx = ps.index(pname)
+            for cq, cfi in self.m.functions.items():
+                if isinstance(cfi.node, ast.Lambda) or fi.name not in self.m.modules[cfi.module].source:
+                    continue
+                for n in walk_no_nested(cfi.node):
+                    if not isinstance(n, ast.Call):
+                        continue
+                    f = n.func
+                    hit = (isinstance(f, ast.Name) and self.m.resolve_name(cfi.module, f.id) == fi.qualname) or \
+                          (isinstance(f, ast.Attribute) and f.attr == fi.name and fi.cls is not None and isinstance(f.value, ast.Name) and f.value.id in ("self", "cls") and
+                           cfi.cls is not None and self.m.find_method(cfi.cls, f.attr) is fi)
+                    if not hit:
+                        continue
+                    a = n.args[idx] if idx < len(n.args) else next((k.value for k in n.keywords if k.arg == pname), None)
+                    q = self.m.resolve_name(cfi.module, a.id) if isinstance(a, ast.Name) else None
+                    if q in self.m.functions:
+                        if q not in out:
+                            out.append(q)
+                    else:
+                        self._cpt_cache[ck] = []
+                        return []
+        self._cpt_cache[ck] = out
+        return out
 
     def _exact_class_uncached(self, recv: ast.Name, fi: FuncInfo) -> Optional[str]:
         cls: Set[str] = set()
@@ -733,6 +836,16 @@ class MayRaise:
             esc = self.none_attr_check(e.func, ctx)
             if esc:
                 out.add(esc)
+        # a call through a parameter that holds a package function (`read_func(self._view, ...)`)
+        if isinstance(e.func, ast.Name) and e.func.id in fi.params() and not self._rebound(e.func.id, fi):
+            tq = (ctx.get("pcls") or {}).get(e.func.id)
+            targets = [tq[5:]] if isinstance(tq, str) and tq.startswith("func:") else self.callable_param_targets(fi, e.func.id)
+            if targets:
+                for q in targets:
+                    callee = self.m.functions[q]
+                    sfx = self.arg_classes(callee, e, ctx)
+                    out |= self.call_summary(callee, sfx or None, ctx, e, recv=None)
+                return out
         res = self.r.callees(e, fi, ctx["self_cls"])
         kind = res[0]
         if kind == "funcs":
@@ -906,7 +1019,11 @@ class MayRaise:
         if name in PURE:
             if name in ("bytearray", "bytes") and e.args:
                 at = self.r.strip_opt(self.r.type_of(e.args[0], fi))
-                if at[0] == "list" or isinstance(e.args[0], (ast.List, ast.ListComp, ast.GeneratorExp)):
+                if isinstance(e.args[0], ast.List) and not any(isinstance(x, ast.Starred) for x in e.args[0].elts):
+                    ivs = [self.ival(x, facts, fi) for x in e.args[0].elts]
+                    ok = all(lo >= 0 and hi <= 255 for lo, hi in ivs)
+                    add("bytearray-store", "ValueError", ok, "elements in " + ", ".join(f"[{lo}, {hi}]" for lo, hi in ivs))
+                elif at[0] == "list" or isinstance(e.args[0], (ast.List, ast.ListComp, ast.GeneratorExp)):
                     add("bytes-from-ints", "ValueError", False, "bytes()/bytearray() of an integer iterable: element range not established")
             return out
         if name == "typevar-ctor":
@@ -1003,7 +1120,8 @@ class MayRaise:
                 add("bytearray-extend", "ValueError", ok, "extend() with a bytes-like value" if ok else f"extend() with {at}: element range/type not established")
                 return out
             if base == "int" and meth in ("to_bytes",):
-                add("int.to_bytes", "OverflowError", False, "length may be too small for the value")
+                ok, why = self.to_bytes_ok(e, facts, fi)
+                add("int.to_bytes", "OverflowError", ok, why)
                 return out
             if base == "int" and meth in ("from_bytes",):
                 return out
@@ -1025,6 +1143,32 @@ class MayRaise:
         self.unknown_calls.append(f"{fi.qualname}:{e.lineno} {norm(e)[:80]} [{name}]")
         out.add(Esc("Other", fi.qualname, norm(e)[:120], e.lineno, "unknown-call"))
         return out
+
+    def to_bytes_ok(self, e: ast.Call, facts: FrozenSet[Fact], fi: FuncInfo) -> Tuple[bool, str]:
+        """x.to_bytes(n, "big") cannot overflow when x >= 0, unsigned, and n is (by its only definition in the function)
+        `(x.bit_length() + 7) // 8` - the minimal octet count of x."""
+        x = e.func.value
+        n = e.args[0] if e.args else next((k.value for k in e.keywords if k.arg == "length"), None)
+        if any(k.arg == "signed" and not (isinstance(k.value, ast.Constant) and k.value.value is False) for k in e.keywords):
+            return False, "signed encoding: length may be too small for the value"
+        if not isinstance(x, ast.Name) or n is None:
+            return False, "length may be too small for the value"
+        xl, _ = self.ival(x, facts, fi)
+        if xl < 0:
+            return False, f"`{x.id}` not known non-negative"
+        want = {f"({x.id}.bit_length() + 7) // 8", f"({x.id}.bit_length() + 7) >> 3", f"(7 + {x.id}.bit_length()) // 8"}
+        nexpr = n
+        if isinstance(n, ast.Name):
+            defs = [a for a in walk_no_nested(fi.node) if isinstance(a, (ast.Assign, ast.AugAssign, ast.AnnAssign, ast.For, ast.NamedExpr)) and
+                    any(isinstance(t_, ast.Name) and t_.id == n.id and isinstance(t_.ctx, ast.Store) for t_ in ast.walk(a))]
+            xdefs = [a for a in walk_no_nested(fi.node) if isinstance(a, (ast.Assign, ast.AugAssign, ast.AnnAssign, ast.For, ast.NamedExpr)) and
+                     any(isinstance(t_, ast.Name) and t_.id == x.id and isinstance(t_.ctx, ast.Store) for t_ in ast.walk(a))]
+            if len(defs) != 1 or not isinstance(defs[0], ast.Assign) or xdefs:
+                return False, "length may be too small for the value"
+            nexpr = defs[0].value
+        if norm(nexpr) in want:
+            return True, f"length is defined as the minimal octet count of `{x.id}` (>= 0)"
+        return False, "length may be too small for the value"
 
     def callback_escapes(self, cb: ast.expr, ctx, site: ast.Call) -> Set[Esc]:
         fi: FuncInfo = ctx["fi"]
